@@ -195,9 +195,14 @@ def c43(c):
 def c36(c):
     quick = c.tier == 'quick'
     c._specdir('Connect')
-    r, binp = _par(lambda: c.tlc_exhaustive('Connect', 'ConnTimers', 'timers_quick.cfg' if quick else 'timers_thorough.cfg', workers=4, timeout=3000),
-                   lambda: c.go_build('connect'))
+    r, binp, w1, w2 = _par(lambda: c.tlc_exhaustive('Connect', 'ConnTimers', 'timers_quick.cfg' if quick else 'timers_thorough.cfg', workers=4, timeout=3000),
+                           lambda: c.go_build('connect'),
+                           lambda: c.tlc('Connect', 'ConnTimers', 'timers_wit_ClientZero.cfg', workers=1, timeout=600, expect_violation=True),
+                           lambda: c.tlc('Connect', 'ConnTimers', 'timers_wit_HandlerZero.cfg', workers=1, timeout=600, expect_violation=True))
     c.log('TLC exhaustive: %d distinct / %d generated, depth %d' % (r['distinct'], r['states'], r['depth']))
+    wits = [_trace(w['out']) for w in (w1, w2)]
+    if not all(wits):
+        raise vf.Inconclusive('a witness run produced no schedule')
     probe = c.harness(binp, 'c36probe', {}, timeout=120)
     rearm = bool(probe['extra'].get('server_zero_rearms'))
     c.cov['server_zero_rearms'] = rearm
@@ -207,11 +212,11 @@ def c36(c):
         raise vf.Inconclusive('simulation failed: %s\n%s' % (s['error'], s['out'][-3000:]))
     keep = ('step', 'out', 'cb', 'status', 'closing', 'tmr', 'now')
     behs = []
-    for b in c.behaviours(s):
+    for b in wits + c.behaviours(s):
         bb = [{k: x[k] for k in keep} for x in b]
         bb[0]['cfg'] = b[0]['cfg']
         behs.append(bb)
-    c.log('TLC simulate: %d behaviours (Client.Refresh(0) re-arms: %s)' % (len(behs), rearm))
+    c.log('%d behaviours incl. 2 witness schedules (Client.Refresh(0) re-arms: %s)' % (len(behs), rearm))
     res = c.harness(binp, 'c36', {'behaviours': behs}, timeout=2400)
     c.absorb(res)
     discarded = res['counters'].get('discarded_for_timing', 0)
@@ -246,6 +251,10 @@ def _life(c, prop, pushes):
         # witness schedules: counterexamples of the model WITHOUT the shutdown guard (the code as it is), always replayed
         runs += [lambda: c.tlc('Connect', 'ConnLife', 'life_wit.cfg', workers=1, timeout=600, expect_violation=True),
                  lambda: c.tlc('Connect', 'ConnLife', 'life_wit2.cfg', workers=1, timeout=600, expect_violation=True)]
+    else:
+        # witness schedules: a push of each kind inside the connect window
+        runs += [lambda: c.tlc('Connect', 'ConnLife', 'first_wit_Send.cfg', workers=1, timeout=600, expect_violation=True),
+                 lambda: c.tlc('Connect', 'ConnLife', 'first_wit_Pub.cfg', workers=1, timeout=600, expect_violation=True)]
     rs = _par(*runs)
     r, binp = rs[0], rs[1]
     c.log('TLC exhaustive %s: %d distinct / %d generated, depth %d' % (design, r['distinct'], r['states'], r['depth']))
